@@ -68,11 +68,14 @@ impl C13Case {
         let mut w = World::booted(sched, self.entropy, false);
         // in a quarter of the cases every Ctrl-C reaches the runtime twice before the next slice
         w.double_intr = self.entropy % 4 == 1;
+        // in a third of the cases a break at a pending INPUT prompt is resumed behind a PRINT
+        w.cont_behind_print = self.entropy % 3 == 0;
         enter_program(&mut w, &self.lines());
         w
     }
 
-    /// The direct line typed between a break and CONT: it reads, lists or saves, it never assigns.
+    /// The direct line typed between a break and CONT: it reads, lists or saves; the one that assigns
+    /// (an INPUT of its own) uses a variable no generated program mentions.
     fn inspect_line(&self) -> Option<&'static str> {
         if !self.inspect {
             return None;
@@ -80,7 +83,7 @@ impl C13Case {
         const LINES: [&str; 8] = [
             "PRINT N%;A;S$",
             "PRINT N%;A;S$",
-            "PRINT N%;A;S$",
+            "INPUT ZQ9",
             "SAVE \"SNAP\"",
             "LIST",
             "LIST -30",
@@ -600,7 +603,7 @@ impl Property for C13 {
         }
     }
     fn rule(&self) -> &'static str {
-        "one evaluation = one generated program (2-25 lines; FOR/WHILE/GOSUB/ON/IF/INPUT/READ/DEF FN/SWAP/MID$=, optional planted runtime error) for which EVERY interrupt instant k in 0..N (N = instructions of the uninterrupted run, up to 700), every INPUT wait, every after-reply instant and (15% of the programs carry a LIST statement) every instant between two listed lines is executed with interrupt()+CONT, STOP and END are inserted at every top-level statement boundary, and 7 quantum schedules are run; in a quarter of the programs every Ctrl-C is delivered twice (two interrupt() calls before the next slice); in half of the programs a non-assigning direct line (PRINT of variables, SAVE, LIST, LIST -30, PRINT:SAVE:REM) is typed between every break and its CONT; 1 in 400 evaluations is a GOSUB recursion to 65 504 - 65 530 frames with an INPUT at the bottom (interrupts with the value stack almost full); distinct = distinct fingerprint of all event logs of the case; non-trivial = the uninterrupted run executed more than 5 VM instructions"
+        "one evaluation = one generated program (2-25 lines; FOR/WHILE/GOSUB/ON/IF/INPUT/READ/DEF FN/SWAP/MID$=, optional planted runtime error) for which EVERY interrupt instant k in 0..N (N = instructions of the uninterrupted run, up to 700), every INPUT wait, every after-reply instant and (15% of the programs carry a LIST statement) every instant between two listed lines is executed with interrupt()+CONT, STOP and END are inserted at every top-level statement boundary, and 7 quantum schedules are run; in a quarter of the programs every Ctrl-C is delivered twice (two interrupt() calls before the next slice); in a third a break at a pending INPUT prompt is resumed with `PRINT \"AGAIN: \";:CONT` (cursor mid-line when the prompt is shown again); in half of the programs a non-assigning direct line (PRINT of variables, SAVE, LIST, LIST -30, PRINT:SAVE:REM, an INPUT of its own into an unused variable) is typed between every break and its CONT; 1 in 400 evaluations is a GOSUB recursion to 65 504 - 65 530 frames with an INPUT at the bottom (interrupts with the value stack almost full); distinct = distinct fingerprint of all event logs of the case; non-trivial = the uninterrupted run executed more than 5 VM instructions"
     }
     fn assumptions(&self) -> Vec<&'static str> {
         vec![
